@@ -122,8 +122,8 @@ add('s_zst', 'zst_op', ['C19'], lambda n, g: 9, pairs=(ZST_PAIRS, []))
 add('s_zst', 'zst_cmp', ['C19'], lambda n: 9, qn=HUGE[:3], tn=HUGE[3:])
 
 # ---------------------------------------------------------------- two buffers (s_two)
-TWO_Q = [(1, op) for op in range(20)] + [(2, op) for op in range(20) if op != 13]
-TWO_T = [(2, 13)] + [(3, op) for op in range(13)]
+TWO_Q = [(1, op) for op in range(20)] + [(2, op) for op in range(13)]
+TWO_T = [(2, op) for op in range(13, 20)] + [(3, op) for op in range(13)]
 add('s_two', 'two_buffers', ['C04'], lambda n, g: (n + 4 if g not in (13,) else 10), pairs=(TWO_Q, TWO_T), stubs=[ROT])
 
 def natural(fn):
